@@ -179,7 +179,9 @@ impl Model for MRegistry {
 }
 
 pub fn models(tier: Tier, seed: u64) -> Vec<Box<dyn DynModel>> {
-    vec![bounded(M15::new(tier, seed), if tier.thorough() { 3 } else { 3 }), bounded(MRegistry { seed }, 0)]
+    let mut v: Vec<Box<dyn DynModel>> = vec![bounded(M15::new(tier, seed), if tier.thorough() { 3 } else { 3 }), bounded(MRegistry { seed }, 0)];
+    v.extend(crate::props::tsurf::models("C15", tier, seed));
+    v
 }
 
 pub fn describe(tier: Tier, r: &mut Report) {
